@@ -53,7 +53,7 @@ theorem nextPage_progress (ph : Phys) (hlen : ∀ p ∈ ph.pages, 0 < p.len) (c 
     (h : (nextPage ph c boundary).1 ≥ 0) : ahead ph (nextPage ph c boundary).2.2.off < ahead ph c.off := by
   unfold nextPage at h ⊢
   simp only [] at h ⊢
-  cases hf : ph.pages.find? (fun p => decide (p.off ≥ c.off)) with
+  cases hf : ph.pages.find? (fun p => decide (p.off ≥ c.off ∧ p.off < stallAt ph c.off)) with
   | none =>
       simp only [hf] at h
       exfalso
@@ -64,7 +64,7 @@ theorem nextPage_progress (ph : Phys) (hlen : ∀ p ∈ ph.pages, 0 < p.len) (c 
   | some p =>
       simp only [hf] at h ⊢
       have hmem : p ∈ ph.pages := Array.mem_of_find?_eq_some hf
-      have hge : p.off ≥ c.off := by have := Array.find?_some hf; simpa using this
+      have hge : p.off ≥ c.off := by have := Array.find?_some hf; simp at this; omega
       have hl := hlen p hmem
       by_cases h1 : boundary > 0 ∧ p.off ≥ c.off + boundary
       · simp [h1, OV_FALSE, Generated.OV_FALSE] at h
